@@ -205,32 +205,49 @@ func init() {
 					m.violate(violation{"C08", "sm-actions", fmt.Sprintf("%T: the action %q ran %v", sm, name, *log), map[string]string{"action": name}})
 				}
 			}
-			*log = nil
-			fl := baseFlags()
-			fl.Checks = 20
-			fl.Seed = r.u64() | 1
-			tb := newRecTB("c08smr")
-			withFlags(fl, func() {
-				runTB(func() {
-					rapid.VerifCheckTB(tb, farDeadline(), func(t *rapid.T) {
-						*log = append(*log, "|")
-						t.Repeat(rapid.StateMachineActions(sm))
+			// the map of actions belongs to the caller: built for every test case, built once and used by every test case,
+			// used for two Repeat phases of one test case — the discipline is the same
+			for _, mode := range []string{"fresh", "shared", "two-phases"} {
+				*log = nil
+				fl := baseFlags()
+				fl.Checks = 20
+				fl.Seed = r.u64() | 1
+				tb := newRecTB("c08smr")
+				shared := rapid.StateMachineActions(sm)
+				m.tag("sm-actions-map-" + mode)
+				m.eval(fmt.Sprintf("sm-actions-map %T %s", sm, mode), true)
+				withFlags(fl, func() {
+					runTB(func() {
+						rapid.VerifCheckTB(tb, farDeadline(), func(t *rapid.T) {
+							*log = append(*log, "|")
+							switch mode {
+							case "fresh":
+								t.Repeat(rapid.StateMachineActions(sm))
+							case "shared":
+								t.Repeat(shared)
+							default:
+								acts := rapid.StateMachineActions(sm)
+								t.Repeat(acts)
+								*log = append(*log, "|")
+								t.Repeat(acts)
+							}
+						})
 					})
 				})
-			})
-			seen := map[string]bool{}
-			prev := "|"
-			for _, e := range *log {
-				seen[e] = true
-				if e != "Check" && e != "|" && prev != "Check" {
-					m.violate(violation{"C08", "sm-actions", fmt.Sprintf("%T: action %s ran after %s, not after Check", sm, e, prev), map[string]string{}})
-					break
+				seen := map[string]bool{}
+				prev := "|"
+				for _, e := range *log {
+					seen[e] = true
+					if e != "Check" && e != "|" && prev != "Check" {
+						m.violate(violation{"C08", "sm-actions", fmt.Sprintf("%T (%s): action %s ran after %s, not after Check", sm, mode, e, prev), map[string]string{}})
+						break
+					}
+					prev = e
 				}
-				prev = e
-			}
-			for _, name := range sm.names() {
-				if name != "" && !seen[name] {
-					m.violate(violation{"C08", "sm-actions", fmt.Sprintf("%T: in 20 runs of Repeat the action %s never ran (ran: %v)", sm, name, keysOf(seen)), map[string]string{}})
+				for _, name := range sm.names() {
+					if name != "" && !seen[name] {
+						m.violate(violation{"C08", "sm-actions", fmt.Sprintf("%T (%s): in 20 runs of Repeat the action %s never ran (ran: %v)", sm, mode, name, keysOf(seen)), map[string]string{}})
+					}
 				}
 			}
 		}
@@ -1323,6 +1340,13 @@ func init() {
 			{"R32 10fff0..10ffff", &unicode.RangeTable{R32: []unicode.Range32{{Lo: 0x10fff0, Hi: 0x10ffff, Stride: 1}}}},
 			{"R16 41..5a + R32 1f600..1f60f", &unicode.RangeTable{R16: []unicode.Range16{{Lo: 0x41, Hi: 0x5a, Stride: 5}}, R32: []unicode.Range32{{Lo: 0x1f600, Hi: 0x1f60f, Stride: 3}}, LatinOffset: 1}},
 			{"Noncharacter_Code_Point", unicode.Noncharacter_Code_Point},
+			// tables with the same bounds and different strides (also: 16-bit against 32-bit ranges), in both orders
+			{"R16 2500..257e stride 1", &unicode.RangeTable{R16: []unicode.Range16{{Lo: 0x2500, Hi: 0x257e, Stride: 1}}}},
+			{"R16 2500..257e stride 2", &unicode.RangeTable{R16: []unicode.Range16{{Lo: 0x2500, Hi: 0x257e, Stride: 2}}}},
+			{"R16 3000..303c stride 6", &unicode.RangeTable{R16: []unicode.Range16{{Lo: 0x3000, Hi: 0x303c, Stride: 6}}}},
+			{"R16 3000..303c stride 1", &unicode.RangeTable{R16: []unicode.Range16{{Lo: 0x3000, Hi: 0x303c, Stride: 1}}}},
+			{"R32 2500..257e stride 3", &unicode.RangeTable{R32: []unicode.Range32{{Lo: 0x2500, Hi: 0x257e, Stride: 3}}}},
+			{"R16 41..5a stride 1", &unicode.RangeTable{R16: []unicode.Range16{{Lo: 0x41, Hi: 0x5a, Stride: 1}}, LatinOffset: 1}},
 		} {
 			var want []rune
 			for c := rune(0); c <= unicode.MaxRune; c++ {
